@@ -336,16 +336,13 @@ func c20Redis(r *ev.Run, s *sutc.SUT, rnd *rand.Rand, round int) {
 		}},
 		{name: "redis-stop-under-traffic", stop: true, live: true, run: func(svc *RedisSvc, cl *fakecluster.Cluster) map[string]interface{} {
 			// pipelines keep flowing (part of them redirected: the table is stale) while the service is stopped under them
-			for _, n := range cl.Nodes {
-				n.Delay = func([][]byte) time.Duration { return time.Millisecond }
-			}
 			ms := cl.Masters()
 			cl.Lock()
 			for sl := 0; sl < fakecluster.NumSlots; sl += 2 {
 				cl.SetOwnerLocked(sl, ms[rnd.Intn(len(ms))])
 			}
 			cl.Unlock()
-			nc := 2 + rnd.Intn(5)
+			nc := 6 + rnd.Intn(7)
 			for c := 0; c < nc; c++ {
 				conn, err := svc.Dial()
 				if err != nil {
@@ -355,7 +352,7 @@ func c20Redis(r *ev.Run, s *sutc.SUT, rnd *rand.Rand, round int) {
 				go func(c int, conn *rclient.Conn) {
 					defer liveWg.Done()
 					defer conn.Close()
-					for round := 0; round < 2000; round++ {
+					for round := 0; round < 20000; round++ {
 						var buf []byte
 						for i := 0; i < 16; i++ {
 							buf = append(buf, resp.CmdS("SET", fmt.Sprintf("live%d.%d.%d", c, round, i), "v")...)
